@@ -96,6 +96,37 @@ type C struct {
 
 func (c *C) Only() (interface{}, error) { return c.B.ReflResolve(c.ID, "only", nil) }
 
+// P is realised by exported struct FIELDS (no methods, no resolver calls): the reflection path that reads a
+// Go field by name.  It is met as a value (Query.pv) and through a pointer (Query.pp, Query.ps).
+type P struct {
+	Name string
+	Peer interface{}
+	Say  string
+	N    int
+	id   string
+}
+
+func (p *P) NodeID() string { return p.id }
+
+func newP(b Backend, id string) P {
+	p := P{id: id}
+	if id == "" {
+		return p
+	}
+	if v, _ := b.ReflResolve(id, "name", nil); v != nil {
+		p.Name, _ = v.(string)
+	}
+	if v, _ := b.ReflResolve(id, "say", nil); v != nil {
+		p.Say, _ = v.(string)
+	}
+	if v, _ := b.ReflResolve(id, "n", nil); v != nil {
+		p.N, _ = v.(int)
+	}
+	return p
+}
+
+type XP struct{ P }
+
 // XA, XB and XC are Go types whose names differ from the GraphQL type names (no binding by name):
 // they are bound by Root.RegisterType only, possibly AFTER requests have met them unbound.
 type XA struct{ A }
@@ -111,6 +142,8 @@ func NewAlt(b Backend, typeName, id string) interface{} {
 		return &XB{B{B: b, ID: id}}
 	case "C":
 		return &XC{C{B: b, ID: id}}
+	case "P":
+		return &XP{newP(b, id)}
 	}
 	return New(b, typeName, id)
 }
@@ -136,6 +169,9 @@ func New(b Backend, typeName, id string) interface{} {
 		return &B{B: b, ID: id}
 	case "C":
 		return &C{B: b, ID: id}
+	case "P":
+		p := newP(b, id)
+		return &p
 	}
 	return nil
 }
@@ -147,3 +183,7 @@ func (a *A) Say(mood int32) (interface{}, error) {
 func (b *B) Say(loud bool) (interface{}, error) {
 	return b.B.ReflResolve(b.ID, "say", map[string]interface{}{"loud": loud})
 }
+
+func (q *Query) Pv() (interface{}, error) { return q.r("pv", nil) }
+func (q *Query) Pp() (interface{}, error) { return q.r("pp", nil) }
+func (q *Query) Ps() (interface{}, error) { return q.r("ps", nil) }
